@@ -390,6 +390,9 @@ fn tier_runs(prop: &str, tier: &str) -> u64 {
         _ => 8_000,
     };
     match tier {
+        // the thorough worlds of C11 / C14 are several times more expensive per run (all
+        // partitions up to 8 packets; cut sweeps of packets up to 2000 bytes)
+        "thorough" if prop == "C11" || prop == "C14" => quick * 8,
         "thorough" => quick * 20,
         _ => quick,
     }
